@@ -51,6 +51,8 @@ def case_strategy(draw):
     mode = src.pick(modes)
     info = grammar.world_info(wd)
     hist = [ops.gen_new(src, info)]
+    if src.chance(1, 5):
+        wd["post_copy"] = "counting"  # M.__post_copy__ assigns an (unmanaged) attribute on every copy, as in the documentation
     twin_copy = mode in ("self", "parent") and src.chance(1, 6)
     if twin_copy:
         next(c for c in wd["classes"] if c["name"] == "M")["post_init_deepcopy"] = True
